@@ -308,6 +308,7 @@ class Interp(Folder):
     def __init__(self, module: Module, env: dict, memo_funcs=()):
         super().__init__(module, env)
         self.memo_funcs = set(memo_funcs)
+        self._default_values: dict = {}
         self.import_hook = None  # (import statement, alias) -> value, for imports inside interpreted functions
         self.global_resolver = None  # name -> value (raises KeyError), consulted for names missing from the environment
         self.memo: dict = {}
@@ -834,7 +835,11 @@ class Interp(Folder):
             elif p in kwargs:
                 local[p] = kwargs.pop(p)
             elif p in defaults:
-                local[p] = self.ev(defaults[p], f.env)
+                # Python evaluates a default once, when the function is defined: a mutable default is shared by all calls
+                dc = self._default_values.setdefault(id(fn), {})
+                if p not in dc:
+                    dc[p] = self.ev(defaults[p], f.env)
+                local[p] = dc[p]
             else:
                 raise PyRaise("TypeError", f"missing argument {p} for {f.name}", node)
         if a.vararg:
@@ -845,7 +850,10 @@ class Interp(Folder):
             if p.arg in kwargs:
                 local[p.arg] = kwargs.pop(p.arg)
             elif d is not None:
-                local[p.arg] = self.ev(d, f.env)
+                dc = self._default_values.setdefault(id(fn), {})
+                if p.arg not in dc:
+                    dc[p.arg] = self.ev(d, f.env)
+                local[p.arg] = dc[p.arg]
             else:
                 raise PyRaise("TypeError", f"missing keyword {p.arg} for {f.name}", node)
         if a.kwarg:
